@@ -879,7 +879,7 @@ class MyPyAstVisitor:
         docstring = self.docstring_parser.get_attribute_documentation(parent.id, name)
 
         # Remove __init__ for attribute ids
-        id_ = self._create_id_from_stack(name).replace("__init__/", "")
+        id_ = self._create_id_from_stack(name).replace("/__init__/", "/")
 
         return Attribute(
             id=id_,
